@@ -23,6 +23,9 @@ func runC02(c *fw.Case) {
 		limit = 65536
 	}
 	blob := genBlob(c, sz, limit)
+	if c.Chance(1, 24, "emptyblob") {
+		blob = nil
+	}
 	want := refIndex(blob, sz)
 	mode := c.Draw(4, "mode") // 0,1: IndexFromFile  2: ChunkStream  3: Chunker.Next over faulty reader
 	c.Note("sizes=%v blob(%s) chunks=%d", sz, describeBlob(blob), len(want))
